@@ -506,3 +506,14 @@ Fixpoint ser (t : tree) : list Z :=
   end.
 Fixpoint ser_tokens (ts : list token) : list Z :=
   match ts with [] => [] | (k, b) :: r => kind_code k :: Zlen b :: b ++ ser_tokens r end.
+
+(* ====================================================================== history (finding F-C18-1, fixed by aadd31f) *)
+(* the end search before the fix: UTF16_END = [^\\]\) used with .search on the data from the "("
+   on: the first ")" whose previous byte is not a backslash.  Result: (token, data after it). *)
+Fixpoint scan_old (l : list Z) : option (list Z * list Z) :=
+  match l with
+  | x :: ((y :: t) as t') =>
+      if negb (x =? 92) && (y =? 41) then Some ([x; y], t)
+      else match scan_old t' with Some (c, r) => Some (x :: c, r) | None => None end
+  | _ => None
+  end.
